@@ -25,4 +25,5 @@ for sid in sorted(rows):
     print("| %s | %s | %s | %s |" % (sid, summ.get(sid, "").replace("|", "\\|"), c, strong.get(sid, "").replace("|", "\\|")))
 missed = [s for s in rows if not rows[s][1] and s not in RETIRED]
 print()
-print("%d changes, %d caught in this sweep, %d not: %s" % (len(rows), len(rows) - len(missed), len(missed), " ".join(sorted(missed))))
+retired = [s for s in rows if s in RETIRED]
+print("%d changes, %d caught in this sweep, %d retired, %d not caught: %s" % (len(rows), len(rows) - len(missed) - len(retired), len(retired), len(missed), " ".join(sorted(missed))))
